@@ -76,6 +76,13 @@ pub fn dispatch(op: &[Value]) -> Result<Value, String> {
             let (ps, cs, pm, mode, ov) = libmathcat::verif::navigate::nav_state();
             Ok(json!({"ps": ps, "cs": cs, "marks": pm, "mode": mode, "overview": ov, "log": libmathcat::verif::navigate::take_log()}))
         }
+        "v_highlight_chars" => libmathcat::verif::braille::highlight_chars(&s(op, 1), &s(op, 2), b(op, 3))
+            .map(|(t, a, z)| json!([t, a, z]))
+            .map_err(e2s),
+        "v_highlight_cell" => {
+            let (h, hi, un) = libmathcat::verif::braille::highlight_cell(char::from_u32(n(op, 1) as u32).unwrap_or(' '));
+            Ok(json!([h, hi as u32, un as u32]))
+        }
         _ => Err(format!("HARNESS: unknown op '{}'", name)),
     }
 }
